@@ -262,6 +262,45 @@ pub fn serde(rng: &mut Rng, n: usize, sink: &mut Sink) {
             break;
         }
     }
+    // byte inputs whose length sits at the inline limit (15, 16, 17 bytes; also 8/32) with EVERY value of the
+    // last byte, and every pair of class-alphabet bytes at the end: the 16th byte of an inline string doubles
+    // as the length tag, so a decoder that stores before validating is sensitive exactly here
+    'boundary: for total in [1usize, 8, 15, 16, 17, 18, 32] {
+        for prefix_kind in 0..3 {
+            let mut tails: Vec<Vec<u8>> = (0..=255u8).map(|b| vec![b]).collect();
+            for &x in A.iter() {
+                for &y in A.iter() {
+                    tails.push(vec![x, y]);
+                }
+            }
+            for tail in tails {
+                if tail.len() > total {
+                    continue;
+                }
+                let mut bytes: Vec<u8> = match prefix_kind {
+                    0 => (0..total - tail.len()).map(|i| b'a' + (i % 26) as u8).collect(),
+                    1 => "é€𝄞é€𝄞é€𝄞é€𝄞é€𝄞".bytes().take(total - tail.len()).collect(),
+                    _ => (0..total - tail.len()).map(|i| if i % 5 == 4 { 0xFF } else { b'0' + (i % 10) as u8 }).collect(),
+                };
+                bytes.extend_from_slice(&tail);
+                evals += 2;
+                let want = std::str::from_utf8(&bytes).ok().map(|s| s.to_string());
+                let g1: Result<LeanString, VErr> = LeanString::deserialize(BytesDeserializer::new(&bytes));
+                let g2: Result<LeanString, VErr> = LeanString::deserialize(BorrowedBytesDeserializer::new(&bytes));
+                for g in [g1, g2] {
+                    let got = g.ok().map(|s| s.as_str().to_string());
+                    if got != want && sink.ex.failures.len() <= 10 {
+                        sink.fail(&["C19"], format!("byte input {} ({} bytes): deserialized to {:?}, str::from_utf8 gives {:?}", hex(&bytes), bytes.len(), got, want));
+                    }
+                }
+                // stop at the first disagreement: later inputs of this block (final bytes in the
+                // heap/static marker range) could make a broken decoder dereference garbage
+                if !sink.ex.failures.is_empty() {
+                    break 'boundary;
+                }
+            }
+        }
+    }
     // arbitrary
     for seed in 0..(20000 * n) {
         let len = seed % 64;
